@@ -44,6 +44,7 @@ enum websocket_callback_return binary_received_comp(bool is_compressed, struct w
 enum websocket_callback_return binary_frame_received_comp(bool is_compressed, struct websocket *s, uint8_t *msg, size_t length, bool is_last_frame,
                                enum websocket_callback_return(*binary_frame_received)(struct websocket *s, uint8_t *msg, size_t length, bool is_last_frame));
 
+size_t websocket_compress_bound(size_t length);
 int websocket_compress(const struct websocket *s, uint8_t *dest, uint8_t *src, size_t length);
 
 void alloc_compression(struct websocket *ws);
